@@ -335,6 +335,11 @@ func (p *Proxy) handleLoop(conn net.Conn) {
 	const maxConsecutiveErrors = 5
 	errorsN := 0
 	for {
+		// An exchange may have been completed while the proxy started closing: do not wait for another request.
+		if p.closing() {
+			return
+		}
+
 		if err := pc.handle(); err != nil {
 			if errors.Is(err, errClose) || isCloseable(err) {
 				log.Debug(context.TODO(), "closing connection", "address", conn.RemoteAddr().String(), "duration", time.Since(start))
